@@ -447,6 +447,34 @@ fn pa_value(alg: u16, params: &[u8]) -> Vec<u8> {
     v
 }
 
+/// R-strings: the value a REALM / NONCE built from the text `s` carries. The quoted form - DQUOTE, qdtext and quoted-pairs,
+/// DQUOTE, optionally after leading white space - stands for its content (quoted-pairs stay as written); every other text the
+/// menus use stands for itself. Read left to right: a backslash takes the next character with it, the first DQUOTE that is
+/// not taken this way closes the quoted form.
+pub fn quoted_ref(s: &str) -> String {
+    let t = s.trim_start_matches([' ', '\t', '\r', '\n']);
+    if let Some(inner) = t.strip_prefix('"') {
+        let mut out = String::new();
+        let mut it = inner.chars();
+        while let Some(c) = it.next() {
+            if c == '\\' {
+                out.push(c);
+                if let Some(d) = it.next() {
+                    out.push(d);
+                }
+            } else if c == '"' {
+                if it.next().is_none() {
+                    return out;
+                }
+                break;
+            } else {
+                out.push(c);
+            }
+        }
+    }
+    s.to_string()
+}
+
 /// Value bytes of a non-verifiable attribute.
 pub fn value_bytes(l: &L, tid: &[u8; 12]) -> Vec<u8> {
     match l {
@@ -457,7 +485,8 @@ pub fn value_bytes(l: &L, tid: &[u8; 12]) -> Vec<u8> {
             v.extend_from_slice(r.as_bytes());
             v
         }
-        L::Nonce(x) | L::Realm(x) | L::UserName(x) | L::Software(x) | L::Padding(x) => x.as_bytes().to_vec(),
+        L::Nonce(x) | L::Realm(x) => quoted_ref(x).into_bytes(),
+        L::UserName(x) | L::Software(x) | L::Padding(x) => x.as_bytes().to_vec(),
         L::PasswordAlgorithm(a, p) => pa_value(*a, p),
         L::PasswordAlgorithms(list) => {
             let mut v = vec![];
@@ -536,9 +565,28 @@ pub struct LMsg {
 pub enum Mac {
     Good,
     Bad,
+    /// the value of the FIRST attribute of the same kind in the message (a verbatim copy; wrong for its own position)
+    SameAsFirst,
     /// wrong in a way that defeats folding comparisons: the same mask on two bytes four apart (MI), the whole value
     /// inverted (SHA256: an even number of words)
     Fold,
+}
+
+/// value of the first TLV of type `ty` in a message under construction (the header length is not trusted)
+fn first_tlv_of(out: &[u8], ty: u16) -> Option<Vec<u8>> {
+    let mut p = 20;
+    while p + 4 <= out.len() {
+        let t = u16::from_be_bytes([out[p], out[p + 1]]);
+        let l = u16::from_be_bytes([out[p + 2], out[p + 3]]) as usize;
+        if p + 4 + l > out.len() {
+            return None;
+        }
+        if t == ty {
+            return Some(out[p + 4..p + 4 + l].to_vec());
+        }
+        p += 4 + l + (4 - l % 4) % 4;
+    }
+    None
 }
 
 /// Reference encoding. `key` = raw HMAC key bytes used for every Mi / Sha in the message.
@@ -556,6 +604,7 @@ pub fn ref_encode_with(msg: &LMsg, key: Option<&[u8]>, macs: &[Mac]) -> Vec<u8> 
     for (ix, a) in msg.attrs.iter().enumerate() {
         let bad = macs.get(ix).copied().unwrap_or(Mac::Good) == Mac::Bad;
         let fold = macs.get(ix).copied().unwrap_or(Mac::Good) == Mac::Fold;
+        let same = macs.get(ix).copied().unwrap_or(Mac::Good) == Mac::SameAsFirst;
         match a {
             L::Mi => {
                 let body = out.len() - 20 + 24;
@@ -567,6 +616,11 @@ pub fn ref_encode_with(msg: &LMsg, key: Option<&[u8]>, macs: &[Mac]) -> Vec<u8> 
                 if fold {
                     mac[0] ^= 0x01;
                     mac[4] ^= 0x01;
+                }
+                if same {
+                    if let Some(v) = first_tlv_of(&out, T_MI) {
+                        mac = v;
+                    }
                 }
                 push_tlv(&mut out, T_MI, &mac);
             }
@@ -582,6 +636,11 @@ pub fn ref_encode_with(msg: &LMsg, key: Option<&[u8]>, macs: &[Mac]) -> Vec<u8> 
                         *b = !*b;
                     }
                 }
+                if same {
+                    if let Some(v) = first_tlv_of(&out, T_SHA) {
+                        mac = v;
+                    }
+                }
                 push_tlv(&mut out, T_SHA, &mac);
             }
             L::Fp => {
@@ -590,6 +649,11 @@ pub fn ref_encode_with(msg: &LMsg, key: Option<&[u8]>, macs: &[Mac]) -> Vec<u8> 
                 let mut crc = crypto::crc32(&out) ^ 0x5354_554e;
                 if bad {
                     crc ^= 0x0000_0100;
+                }
+                if same {
+                    if let Some(v) = first_tlv_of(&out, T_FP) {
+                        crc = u32::from_be_bytes([v[0], v[1], v[2], v[3]]);
+                    }
                 }
                 push_tlv(&mut out, T_FP, &crc.to_be_bytes());
             }
